@@ -76,6 +76,8 @@ func sampleAlphabet(withVendor bool) []namedSample {
 		{"counter{eth,tr}", sfh.CounterSample(1, sfh.Rec("eth", 0), sfh.Rec("tr", 0))},
 		{"counter{vg,vlan,proc}", sfh.CounterSample(0, sfh.Rec("vg", 0), sfh.Rec("vlan", 0), sfh.Rec("proc", 0))},
 		{"counter{unk,gen}", sfh.CounterSample(0, sfh.Rec("unknown", 1), sfh.Rec("gen", 1))},
+		{"flow{vendor-rec,sw}", sfh.FlowSample(0, sfh.Rec("vendor-std-format", 1), sfh.Rec("sw", 0))},
+		{"counter{vendor-rec,vlan}", sfh.CounterSample(0, sfh.Rec("vendor-std-format", 3), sfh.Rec("vlan", 0))},
 		{"unknown3/0", sfh.UnknownSample(3, 0)},
 		{"unknown4/8", sfh.UnknownSample(4, 8)},
 		{"unknown5/12", sfh.UnknownSample(5, 12)},
@@ -91,13 +93,21 @@ func init() {
 	spaces["sflow.seq"] = func(tier string) mck.Space {
 		al := sampleAlphabet(true)
 		n := uint64(len(al) + 1)
-		dims := mck.Radix{n, n, n, 2}
+		L := 3
+		if tier == "thorough" {
+			L = 4
+		}
+		dims := mck.Radix{}
+		for i := 0; i < L; i++ {
+			dims = append(dims, n)
+		}
+		dims = append(dims, 2)
 		return mck.FuncSpace{N: dims.Size(), F: func(idx uint64, c *mck.Ctx) {
 			d := dims.Digits(idx)
 			var ss []ref.SFSample
 			var names []string
 			ended := false
-			for _, k := range d[:3] {
+			for _, k := range d[:L] {
 				if k == 0 {
 					ended = true
 					continue
@@ -109,12 +119,12 @@ func init() {
 				ss = append(ss, al[k-1].s)
 				names = append(names, al[k-1].name)
 			}
-			runSF(c, baseDG(d[3] == 1, ss...), nil, strings.Join(names, " ; "))
+			runSF(c, baseDG(d[L] == 1, ss...), nil, strings.Join(names, " ; "))
 		}}
 	}
 	// sflow.flowrec: one flow sample, all ordered selections of <=3 distinct record types
 	spaces["sflow.flowrec"] = func(tier string) mck.Space {
-		kinds := []string{"raw", "sw", "rt4", "rt6", "unknown"}
+		kinds := []string{"raw", "sw", "rt4", "rt6", "unknown", "vendor-std-format"}
 		n := uint64(len(kinds) + 1)
 		dims := mck.Radix{n, n, n, 2, 27}
 		return mck.FuncSpace{N: dims.Size(), F: func(idx uint64, c *mck.Ctx) {
@@ -155,7 +165,7 @@ func init() {
 	}
 	// sflow.counterrec: one counter sample, ordered selections of <=3 distinct record types
 	spaces["sflow.counterrec"] = func(tier string) mck.Space {
-		kinds := []string{"gen", "eth", "tr", "vg", "vlan", "proc", "unknown"}
+		kinds := []string{"gen", "eth", "tr", "vg", "vlan", "proc", "unknown", "vendor-std-format"}
 		n := uint64(len(kinds) + 1)
 		dims := mck.Radix{n, n, n, 2}
 		return mck.FuncSpace{N: dims.Size(), F: func(idx uint64, c *mck.Ctx) {
@@ -251,6 +261,12 @@ func init() {
 	spaces["sflow.hdrlen"] = func(tier string) mck.Space {
 		vs := sfh.FrameVariants()
 		pick := []int{0, 1, 2, 9, 17, 26} // eth/ip4/{tcp,udp,icmp}, eth+vlan/ip4/tcp, eth+vlan/ip6/icmp, raw-ip6/icmp
+		if tier == "thorough" {
+			pick = nil
+			for i := range vs {
+				pick = append(pick, i)
+			}
+		}
 		dims := mck.Radix{1501, uint64(len(pick))}
 		return mck.FuncSpace{N: dims.Size(), F: func(idx uint64, c *mck.Ctx) {
 			d := dims.Digits(idx)
